@@ -262,6 +262,11 @@ CHECKS = {
         "legs": [
             model("RobsMC.cfg", spec="RobsMC.tla", min_states=10000),
             model("RobsMC_F5.cfg", spec="RobsMC.tla", expect_violation="MirrorEqualsCollectionAll"),
+            model("RobsSub_MC.cfg", spec="RobsSub.tla", min_states=300),
+            model("RobsSub_DevEarly.cfg", spec="RobsSub.tla", expect_violation="C13_DownstreamEqual"),
+            # concurrent chain: observable -> mirror -> mirrors attached at arbitrary moments while readers hold the first mirror
+            dict(kind="trace", name="robs_chain", workload="robs_chain", n=(300, 5000), opts={}, tspec="RobsChainTrace.tla", tcfg="RobsChainTrace.cfg",
+                 require={r'"ev":"chain_mirror"': 400, r'"coll":"deque"': 50}, nontrivial=[r'"ev":"chain_sub_done"']),
             dict(RT, kind="custom", fn=legs.gen_replay, name="robs_paths", gen_spec="RobsGen.tla", gen_cfg="RobsGen.cfg", depth=(4, 5),
                  gen_extra=SIM, gen_num=(400, 4000), exclude="retain_mut", limit=(4000, 60000), workload="robs_script",
                  nontrivial=[r'"evs":\[\{'], min_behaviours=1000),
